@@ -132,6 +132,15 @@ def compare_abstract(A, B, report, approx_changed=True):
                                 m[(i, j)] = next(it)
                         return m
                     fa, fb = full(da, ba, ea), full(db, bb, eb)
+                    # covariances of angular observations written in degrees are in arc seconds: bring both to centesimal units
+                    ANG = ("direction", "angle", "z-angle", "azimuth")
+
+                    def unit(o):
+                        return 1.0 / 0.324 if (o["t"] in ANG and to_gon(o["val"])[1]) else 1.0
+                    if x["type"] == "obs" and len(x["obs"]) == da:
+                        ua, ub = [unit(o) for o in x["obs"]], [unit(o) for o in y["obs"]]
+                        fa = {k_: v * ua[k_[0]] * ua[k_[1]] for k_, v in fa.items()}
+                        fb = {k_: v * ub[k_[0]] * ub[k_[1]] for k_, v in fb.items()}
                     for key in set(fa) | set(fb):
                         if abs(fa.get(key, 0.0) - fb.get(key, 0.0)) > 1e-7 * max(1.0, abs(fa.get(key, 0.0))):
                             report("export_cov", "%s cov-mat element %s: %r -> %r" % (x["type"], key, fa.get(key, 0.0), fb.get(key, 0.0)))
@@ -203,7 +212,9 @@ def run(ctx):
             cur[i] = etext
     # ---- export without any other output (the XML output switches the network to gons before the export is written)
     idx = [i for i in range(len(ss)) if surveys[i].deg or i % 4 == 0]
-    jobs = [{"gkf": orig[i], "args": surveys[i].cli(), "want": ["export"]} for i in idx]
+    # surveys written in degrees are also exported while the network is in degree mode (--angular 360): values in d-m-s, standard
+    # deviations in arc seconds
+    jobs = [{"gkf": orig[i], "args": surveys[i].cli() + (["--angular", "360"] if surveys[i].deg else []), "want": ["export", "text"]} for i in idx]        # without any output gama-local writes XML, which switches to gons
     runs = gl.run_many(ctx, jobs)
     nruns += len(jobs)
     for i, run in zip(idx, runs):
